@@ -32,22 +32,23 @@ import (
 type exitPanic struct{ code int }
 
 type world struct {
-	plan           *Plan
-	prop           string
-	seed           uint64
-	res            *sim.RunResult
-	vw             *verifrt.World
-	root           string
-	rm             resmgr.ResourceManager
-	stub           *nristub.Fake
-	rt             *runtimeModel
-	cfg            *CfgSpec // last accepted configuration
-	gen            int64
-	inc            int // incarnation (restarts)
-	step           int
-	dead           bool // a handler panicked or the process "exited"
-	rejectedReconf bool // a configuration update was rejected (and reverted) in this incarnation
-	agt            *agent.Agent
+	plan                   *Plan
+	prop                   string
+	seed                   uint64
+	res                    *sim.RunResult
+	vw                     *verifrt.World
+	root                   string
+	rm                     resmgr.ResourceManager
+	stub                   *nristub.Fake
+	rt                     *runtimeModel
+	cfg                    *CfgSpec // last accepted configuration
+	gen                    int64
+	inc                    int // incarnation (restarts)
+	step                   int
+	dead                   bool // a handler panicked or the process "exited"
+	rejectedReconf         bool // a configuration update was rejected (and reverted) in this incarnation
+	cfgChangedSinceCoexist bool // an accepted reconfiguration changed the configuration (C11 feasibility memory is void)
+	agt                    *agent.Agent
 	// per-request capture
 	pushed   [][]*nri.ContainerUpdate // unsolicited UpdateContainers of this request
 	stubFail bool
@@ -95,6 +96,8 @@ func newBackend(policy string) policyapi.Backend {
 
 // boot starts a new plugin incarnation on the state directory.
 func (w *world) boot(cfg *CfgSpec) error {
+	// a new incarnation is a new process: package-level state starts afresh
+	topologyaware.VerifResetGlobals()
 	state := filepath.Join(w.root, "state")
 	hostRoot := filepath.Join(w.root, "host")
 	resmgr.VerifSetDirs(state, hostRoot)
@@ -193,8 +196,8 @@ func panicSite(stack []byte) string {
 		}
 		if seenPanic && strings.Contains(l, "github.com/containers/nri-plugins/") && i+1 < len(lines) {
 			fn := l
-			if k := strings.Index(fn, "("); k > 0 {
-				fn = fn[:k]
+			if k := strings.LastIndex(fn, "("); k > 0 {
+				fn = fn[:k] // strip the argument list, keep (*type).method
 			}
 			fn = strings.TrimPrefix(fn, "github.com/containers/nri-plugins/")
 			return fn
@@ -222,16 +225,17 @@ func trimStack(stack []byte) string {
 }
 
 type reply struct {
-	op      *Op
-	kind    string
-	target  string // container the request is about
-	adjust  *nri.ContainerAdjustment
-	updates []*nri.ContainerUpdate
-	pushed  [][]*nri.ContainerUpdate
-	err     error
-	crashed bool
-	skipped bool
-	prev    map[string]told // told view before this reply was applied
+	op           *Op
+	kind         string
+	target       string // container the request is about
+	adjust       *nri.ContainerAdjustment
+	updates      []*nri.ContainerUpdate
+	pushed       [][]*nri.ContainerUpdate
+	err          error
+	crashed      bool
+	skipped      bool
+	prev         map[string]told // told view before this reply was applied
+	revertFailed bool            // rejected reconfigure whose revert to the old configuration failed as well
 }
 
 // applyReply folds the plugin's answer into the told view.
@@ -243,12 +247,14 @@ func (w *world) applyReply(r *reply) {
 	if r.adjust != nil && r.target != "" {
 		if c, ok := w.rt.ctrs[r.target]; ok && r.adjust.Linux != nil {
 			c.t.apply(r.adjust.Linux.Resources)
+			c.rv.apply(r.adjust.Linux.Resources)
 		}
 	}
 	apply := func(us []*nri.ContainerUpdate) {
 		for _, u := range us {
 			if c, ok := w.rt.ctrs[u.ContainerId]; ok && u.Linux != nil {
 				c.t.apply(u.Linux.Resources)
+				c.rv.apply(u.Linux.Resources)
 				c.t.staleUntilNextUpdate = false
 			}
 		}
@@ -266,6 +272,7 @@ func (w *world) initTold(c *rCtr) {
 	c.init = told{}
 	c.init.apply(r)
 	c.t = c.init
+	c.rv = c.init
 }
 
 // doOp delivers one operation to the plugin and returns what came back.
@@ -277,6 +284,7 @@ func (w *world) doOp(op *Op) *reply {
 	}
 	p := resmgr.VerifPlugin(w.rm)
 	w.pushed = nil
+	sim.LogReset()
 	w.stubFail = op.Fault == "stub.update-error"
 	switch op.Kind {
 	case "run-pod":
@@ -372,7 +380,11 @@ func (w *world) doOp(op *Op) *reply {
 		if rep.err == nil && !rep.crashed && identical {
 			// identical resources are short-circuited: nothing is re-evaluated
 		} else if rep.err == nil && !rep.crashed {
+			// the runtime applies the kubelet's new values itself; what the
+			// plugin returns is laid over them afterwards (applyReply)
+			c.rv.apply(res)
 			c.cur = &ns
+			c.updated = true
 			c.lostGrant = ""
 			c.reqUnsure = false
 			c.resAtAlloc = w.reservedClass(c)
@@ -435,6 +447,7 @@ func (w *world) doOp(op *Op) *reply {
 		pod.state = "removed"
 		rep.err, rep.crashed = w.call("RemovePodSandbox", func() error { return p.RemovePodSandbox(ctx, pod.spec.nri()) })
 	case "reconfigure":
+		op.identical = sameCfg(op.Cfg, w.cfg)
 		w.gen++
 		rc, err := renderCfg(op.Cfg, w.gen)
 		if err != nil {
@@ -446,11 +459,18 @@ func (w *world) doOp(op *Op) *reply {
 			return err
 		})
 		if rep.err == nil && !rep.crashed {
+			if !op.identical {
+				w.cfgChangedSinceCoexist = true
+			}
 			w.cfg = op.Cfg
 			w.res.Probe("reconfigure-accepted")
 		} else if rep.err != nil {
 			w.res.Fault("cfg.rejected/" + op.Cfg.Invalid)
 			w.rejectedReconf = true
+			rep.revertFailed = sim.LogSeen(markRevertFailed)
+			if rep.revertFailed {
+				w.res.Probe("revert-of-rejected-configuration-failed")
+			}
 		}
 	case "sync":
 		rep.err, rep.crashed = w.synchronize(rep)
@@ -470,6 +490,63 @@ func (w *world) doOp(op *Op) *reply {
 			return rep
 		}
 		rep.err, rep.crashed = w.synchronize(rep)
+	case "x":
+		// out-of-protocol event (C14): duplicated, reordered, or naming a pod
+		// or container the plugin has never seen or has forgotten. The
+		// runtime model is not changed by it.
+		w.res.Fault("nri." + op.Fault)
+		var pod *nri.PodSandbox
+		var ctr *nri.Container
+		if c, ok := w.rt.ctrs[op.ID]; ok {
+			pod, ctr = c.pod.spec.nri(), w.rt.nriCtr(c)
+		} else if pd, ok := w.rt.pods[op.ID]; ok {
+			pod = pd.spec.nri()
+		}
+		if pod == nil {
+			pod = (&PodSpec{ID: "ghost-pod-" + op.ID, Name: "ghost", Namespace: "default", QoS: "Burstable"}).nri()
+			// half of the time the ghost container claims an existing pod
+			if op.Ctr != nil && op.Ctr.Pod != "" {
+				if pd, ok := w.rt.pods[op.Ctr.Pod]; ok {
+					pod = pd.spec.nri()
+				}
+			}
+		}
+		if ctr == nil {
+			ctr = &nri.Container{Id: op.ID, PodSandboxId: pod.Id, Name: "ghost", State: nri.ContainerState_CONTAINER_RUNNING}
+			if op.Ctr != nil && !op.Ctr.NoLinux {
+				ctr.Linux = &nri.LinuxContainer{}
+				if !op.Ctr.NoResources {
+					ctr.Linux.Resources = w.rt.linuxResources(&PodSpec{QoS: "Burstable"}, op.Ctr)
+				}
+			}
+		}
+		rep.target = ""
+		switch op.Ev {
+		case "RunPodSandbox":
+			rep.err, rep.crashed = w.call(op.Ev, func() error { return p.RunPodSandbox(ctx, pod) })
+		case "StopPodSandbox":
+			rep.err, rep.crashed = w.call(op.Ev, func() error { return p.StopPodSandbox(ctx, pod) })
+		case "RemovePodSandbox":
+			rep.err, rep.crashed = w.call(op.Ev, func() error { return p.RemovePodSandbox(ctx, pod) })
+		case "CreateContainer":
+			rep.err, rep.crashed = w.call(op.Ev, func() error { _, _, err := p.CreateContainer(ctx, pod, ctr); return err })
+		case "StartContainer":
+			rep.err, rep.crashed = w.call(op.Ev, func() error { return p.StartContainer(ctx, pod, ctr) })
+		case "UpdateContainer":
+			var lr *nri.LinuxResources
+			if op.Ctr != nil && !op.Ctr.NoResources {
+				lr = w.rt.linuxResources(&PodSpec{QoS: "Burstable"}, op.Ctr)
+			}
+			rep.err, rep.crashed = w.call(op.Ev, func() error { _, err := p.UpdateContainer(ctx, pod, ctr, lr); return err })
+		case "StopContainer":
+			rep.err, rep.crashed = w.call(op.Ev, func() error { _, err := p.StopContainer(ctx, pod, ctr); return err })
+		case "RemoveContainer":
+			rep.err, rep.crashed = w.call(op.Ev, func() error { return p.RemoveContainer(ctx, pod, ctr) })
+		default:
+			rep.skipped = true
+		}
+		w.pushed = nil
+		return rep
 	default:
 		rep.skipped = true
 		return rep
@@ -535,8 +612,11 @@ func (w *world) synchronize(rep *reply) (error, bool) {
 	})
 }
 
+const markRevertFailed = "failed to revert configuration"
+
 func setupProcess() {
 	klog.OsExit = func(code int) { panic(exitPanic{code}) }
+	sim.LogMarkers(markRevertFailed)
 }
 
 func (w *world) setMemCapacity() {
